@@ -43,7 +43,7 @@ manifest = {
         "name": "vp-engine",
         "path": "/verif/engine",
         "serves_properties": sorted(CLAIMED.keys()),
-        "kind_free_text": "property-based testing and fuzzing: proptest-generated choice tapes decoded constructively per property (16 lanes, shrinking + delta debugging), bounded-exhaustive enumeration of small spaces, model-based operation histories, fault enumeration; cases execute in watchdog-guarded worker processes; libFuzzer target in /verif/fuzz for the thorough tier",
+        "kind_free_text": "property-based testing and fuzzing: proptest-generated choice tapes decoded constructively per property (16 lanes, shrinking + delta debugging), bounded-exhaustive enumeration of small spaces, model-based operation histories, fault enumeration; cases execute in watchdog-guarded worker processes; libFuzzer target in /verif/engine/fuzz for the thorough tier",
     }],
     "checks": checks,
     "not_applicable": na,
